@@ -118,7 +118,20 @@ func (f *Frame) findImport(pkg *types.Package, name string) *types.Package {
 	return nil
 }
 
+// specEval evaluates a spec expression; long closed sub-terms (no quantifier-bound variable inside)
+// are given an SMT name so that formulas stay small.
 func (f *Frame) specEval(e SExpr, env *SpecEnv) Val {
+	v := f.specEval1(e, env)
+	switch e.(type) {
+	case *SSel, *SIndex, *SCall:
+		if len(v.T) > 80 && v.T != "nil" && !strings.Contains(v.T, "!q") {
+			return f.name("s", v)
+		}
+	}
+	return v
+}
+
+func (f *Frame) specEval1(e SExpr, env *SpecEnv) Val {
 	switch x := e.(type) {
 	case *SNum:
 		n, ok := new(big.Int).SetString(x.Val, 0)
@@ -344,7 +357,7 @@ func (f *Frame) specIndex(base, idx Val, env *SpecEnv) Val {
 		val := fmt.Sprintf("(select (%s.val %s) %s)", so, base.T, idx.T)
 		return Val{T: ite(present, val, f.c.sorts.Zero(et)), Ty: et}
 	case *types.Array:
-		return Val{T: fmt.Sprintf("(select %s %s)", base.T, idx.T), Ty: u.Elem()}
+		return Val{T: fmt.Sprintf("(select %s %s)", f.arrTerm(base), idx.T), Ty: u.Elem()}
 	case *types.Slice:
 		so := f.c.sorts.SortOf(base.Ty)
 		return Val{T: fmt.Sprintf("(select (%s.arr %s) (+ (%s.off %s) %s))", so, base.T, so, base.T, idx.T), Ty: u.Elem()}
@@ -543,6 +556,10 @@ func (f *Frame) specCall(x *SCall, env *SpecEnv) Val {
 				a = Val{T: fmt.Sprintf("(ite (%s %s %s) %s %s)", op, a.T, b.T, a.T, b.T)}
 			}
 			return a
+		case "zero":
+			// zero(T): the zero value of a Go type
+			t := f.resolveType(env, x.Args[0].String())
+			return Val{T: f.c.sorts.Zero(t), Ty: t}
 		case "abs":
 			a := f.specEval(x.Args[0], env)
 			return Val{T: fmt.Sprintf("(abs %s)", a.T)}
@@ -597,6 +614,13 @@ func (f *Frame) specCall(x *SCall, env *SpecEnv) Val {
 		if strings.HasPrefix(id.Name, "#") || strings.HasPrefix(id.Name, "uf_") {
 			return f.specUF(id.Name, x.Args, env)
 		}
+		// pure function of the current package: name(args) or name#k(args)
+		if env.pkg != nil {
+			fname, which := splitResultIndex(id.Name)
+			if fn, ok := env.pkg.Scope().Lookup(fname).(*types.Func); ok {
+				return f.specPureCall(fn, nil, x.Args, which, env)
+			}
+		}
 		sfail("unknown function %s in spec", id.Name)
 	}
 	if sel, ok := x.Fun.(*SSel); ok {
@@ -613,7 +637,30 @@ func (f *Frame) specCall(x *SCall, env *SpecEnv) Val {
 						}
 						return Val{T: v.T, Ty: tn.Type()}
 					}
+					// pure package-level function
+					fname, which := splitResultIndex(sel.Name)
+					if fn, ok := p.Scope().Lookup(fname).(*types.Func); ok {
+						return f.specPureCall(fn, nil, x.Args, which, env)
+					}
 				}
+			}
+		}
+		// pure method on a value
+		recv := f.specEval(sel.X, env)
+		if recv.Ty != nil {
+			mname, which := splitResultIndex(sel.Name)
+			if fn := lookupMethod(recv.Ty, mname, env.pkg); fn != nil {
+				return f.specPureCall(fn, &recv, x.Args, which, env)
+			}
+			sfail("no method %s on %v", mname, recv.Ty)
+		}
+	}
+	if isId {
+		// pure function of the current package: name(args) or name#k(args)
+		fname, which := splitResultIndex(id.Name)
+		if env.pkg != nil {
+			if fn, ok := env.pkg.Scope().Lookup(fname).(*types.Func); ok {
+				return f.specPureCall(fn, nil, x.Args, which, env)
 			}
 		}
 	}
@@ -677,12 +724,30 @@ func (f *Frame) applySpecFunc(sf *SpecFunc, args []SExpr, env *SpecEnv) Val {
 		argVals = append(argVals, v)
 		ne.names[sf.Params[i].Name] = v
 	}
-	if sf.Body == nil {
-		// uninterpreted spec function
+	opaque := sf.Opaque
+	if opaque && f.c.contract != nil {
+		for _, r := range f.c.contract.Reveal {
+			if r == sf.Name {
+				opaque = false
+			}
+		}
+	}
+	if sf.Body == nil || opaque {
+		// uninterpreted spec function (or an opaque one not revealed by the function being verified)
 		var ts, sorts []string
 		for i, v := range argVals {
+			ps := f.specSort(ne, sf.Params[i].Type)
+			if v.Ty != nil && ps != "Int" && ps != "Bool" {
+				if _, isPtr := v.Ty.Underlying().(*types.Pointer); isPtr && f.c.sorts.SortOf(v.Ty) != ps {
+					st := env.st
+					if st == nil {
+						st = &State{}
+					}
+					v = f.deref(st, v, nil)
+				}
+			}
 			ts = append(ts, v.T)
-			sorts = append(sorts, f.specSort(ne, sf.Params[i].Type))
+			sorts = append(sorts, ps)
 		}
 		rs := f.specSort(ne, sf.Ret)
 		fn := f.c.uf("sf_"+sf.Name, sorts, rs)
